@@ -445,6 +445,38 @@ func TestC02Grid(t *testing.T) {
 		n++
 	}
 	h.AddExtra("C02", "huge_gap_cases_enumerated", n)
+	// integers of 80 000 and 100 003 digits, both signs, one unit below / at / above a power of ten, rounded to a few
+	// digits by SetInt and SetRat: the accuracy is the sign of (stored - exact) for negative arguments too
+	for _, d := range []int{80000, 100003} {
+		p := new(big.Int).Exp(big.NewInt(10), big.NewInt(int64(d)), nil)
+		for _, delta := range []int64{-1, 0, 1} {
+			for _, neg := range []bool{false, true} {
+				v := new(big.Int).Add(p, big.NewInt(delta))
+				if neg {
+					v.Neg(v)
+				}
+				for _, m := range []uint8{uint8(model.ToNearestEven), uint8(model.ToZero), uint8(model.ToNegativeInf)} {
+					c := C02Case{Op: "setint", I: v.String(), P: uint(3 + d%37), M: m}
+					if delta == 0 && m != 0 {
+						c = C02Case{Op: "setrat", I: v.String(), Den: "1", P: uint(3 + d%37), M: m}
+					}
+					o := &h.Obs{}
+					o.Label("giant-integer")
+					if f := propC02.SafeCheck(c, o); f != nil {
+						h.ReportGridFail(t, "C02", f, mustJSON(c))
+					}
+					h.RecordGrid("C02", o, struct {
+						Op     string
+						Digits int
+						Delta  int64
+						Neg    bool
+						M      uint8
+					}{c.Op, d, delta, neg, m})
+					n++
+				}
+			}
+		}
+	}
 	// the million-digit carry cases check value and accuracy together (see c01CarryCases)
 	if f := c01CarryCases(); f != nil {
 		h.ReportGridFail(t, "C02", f, []byte(`{"op":"arith","a":{"op":"grid:carry-cases"}}`))
